@@ -953,11 +953,12 @@ Structure make_structure_from_block(const cif::Block& block_) {
                              {"entity_id", "num", "mon_id"}))
     if (Entity* ent = st.get_entity(row.str(0))) {
       // According to the spec, num must be >= 1.
-      int pos = cif::as_int(row[1], 0) - 1;
-      if (pos == (int) ent->full_sequence.size())
+      int num = cif::as_int(row[1], 0);
+      int len = (int) ent->full_sequence.size();
+      if (num == len + 1)
         ent->full_sequence.push_back(row.str(2));
-      else if (pos >= 0 && pos < (int) ent->full_sequence.size())
-        cat_to(ent->full_sequence[pos], ',', row.str(2));
+      else if (num >= 1 && num <= len)
+        cat_to(ent->full_sequence[num - 1], ',', row.str(2));
     }
 
   cif::Table struct_ref = block.find("_struct_ref.",
